@@ -1,6 +1,7 @@
 package checks
 
 import (
+	"reflect"
 	"fmt"
 	"math"
 	"math/big"
@@ -462,6 +463,41 @@ func c08Slot(c *Ctx, slot durSlot, cs c08case, local map[string]int64) {
 		return
 	}
 	local["slot.printed-and-read-back"]++
+	// the caller owns what it was given: it writes another duration into every
+	// duration the statement holds (directly and through pointers). Statements
+	// parsed later must not see that.
+	c08ScribbleDurations(reflect.ValueOf(st), 0)
+	local["slot.caller-overwrote-the-durations"]++
+}
+
+var c08durType = reflect.TypeOf(time.Duration(0))
+
+func c08ScribbleDurations(v reflect.Value, depth int) {
+	if depth > 12 || !v.IsValid() {
+		return
+	}
+	switch v.Kind() {
+	case reflect.Ptr, reflect.Interface:
+		if !v.IsNil() {
+			c08ScribbleDurations(v.Elem(), depth+1)
+		}
+	case reflect.Struct:
+		for i := 0; i < v.NumField(); i++ {
+			if f := v.Field(i); f.CanSet() || f.Kind() == reflect.Ptr || f.Kind() == reflect.Interface || f.Kind() == reflect.Slice || f.Kind() == reflect.Struct {
+				if v.Type().Field(i).PkgPath == "" {
+					c08ScribbleDurations(f, depth+1)
+				}
+			}
+		}
+	case reflect.Slice:
+		for i := 0; i < v.Len(); i++ {
+			c08ScribbleDurations(v.Index(i), depth+1)
+		}
+	case reflect.Int64:
+		if v.Type() == c08durType && v.CanSet() {
+			v.SetInt(int64(12345 * time.Hour))
+		}
+	}
 }
 
 // c08Across: the same spelling in two statements of one query, signed in the
@@ -861,6 +897,28 @@ func checkC08(c *Ctx) (string, bool, []string) {
 		}
 		r.MergeCounts(local)
 	})
+
+	// ---- similar spellings one after the other -----------------------------
+	// (long single- and two-component literals that share all but their last
+	// unit or digit, with a multi-byte unit in the middle)
+	{
+		local := map[string]int64{}
+		digits := "1234567890123456"
+		units := []string{"ns", "u", "µ", "ms", "s", "m", "h", "d", "w"}
+		for n := 1; n <= 15; n++ {
+			for _, mid := range []string{"µ", "u", "ms"} {
+				for _, last := range []string{"5", "6"} {
+					for _, u := range units {
+						if cs, ok := parseCompsText(digits[:n] + mid + last + u); ok {
+							c08Parse(c, cs, local)
+							local["similar-spellings"]++
+						}
+					}
+				}
+			}
+		}
+		r.MergeCounts(local)
+	}
 
 	// ---- 2. random spellings ----------------------------------------------
 	nrand := c.N(200000, 5000000)
